@@ -8,7 +8,9 @@ RULE = ('case = (a) one round trip AnsiString(str(s)) of a reachable value with 
         'by text and per-character display style; (b) one simplify() call (in place on AnsiString, returning on '
         'AnsiStr): text and styles unchanged (pre-style from the valid settings only), afterwards parsable and '
         'every reported setting valid, second simplify leaves str unchanged, rendering is a fixed point of '
-        'parse+render.  Non-trivial: >= 2 settings share a character; distinct = distinct (text, settings).')
+        'parse+render; (c) both on values holding a setting that cannot be read back - incomplete/out-of-range '
+        'extended-colour groups given as integers (flat, tuple, nested), verbatim texts with non-ASCII digits or '
+        'spaces - in four layouts, simplify() twice and again on an AnsiStr copy.  Non-trivial: >= 2 settings share a character; distinct = distinct (text, settings).')
 ASSUMPTIONS = ['SGR effect-group model of DESIGN 2.1', 'values with ill-formed *valid* settings or ESC in text are grey']
 MIN_EVAL = 200
 CASES = {'quick': 600, 'thorough': 9000}
@@ -180,6 +182,46 @@ def simplify_again(ctx, mon, rng, v):
         ctx.aborted['simplify-again-raised'] += 1
 
 
+# settings which are accepted but cannot be read back as a graphic rendition: incomplete or out-of-range extended-
+# colour groups given as *integers* (flat, tuple, nested), verbatim texts written with non-ASCII digits / spaces
+ODD_SETTINGS = [[38, 5], (48, 2, 1), [58], [[38], [5]], [38, 5, 300], [58, 2, 1, 2], (38, 2), [48, 5],
+                '[\u0663', '[\uff11', '[38;5;\u0663', '[1;\u0663', '[\u0663;1', '[\u00b2', '[1\u00a0', '[\u0967\u0968',
+                '[38;5', '[+1', '[1;;\uff13']
+
+
+def odd_settings_case(ctx, mon, rng, exhaustive=False):
+    """round trip and simplify() of values holding such a setting: alone on a range (it then renders as a sequence of
+    its own), under/over a well-formed setting, at the start, up to the end; simplify() twice on the same object and
+    once on a fresh object holding the same setting (what an earlier call was told must not matter)"""
+    L = ctx.L
+    picks = ODD_SETTINGS if exhaustive else [rng.choice(ODD_SETTINGS)]
+    for st in picks:
+        for layout in range(4):
+            with mon.quiet():
+                try:
+                    v = L.AnsiString('hello world')
+                    if layout == 1:
+                        v.apply_formatting('bold', 0, 8)
+                    if layout == 3:
+                        v.apply_formatting('red', 2, None)
+                    v.apply_formatting(L.AnsiSetting(st[1:]) if isinstance(st, str) and layout == 2 else st,
+                                       *[(6, 11), (6, 9), (0, 4), (3, 7)][layout])
+                    if layout == 2:
+                        v.apply_formatting('underline', 2, 6, topmost=False)
+                except Exception:
+                    ctx.aborted['odd-setting-rejected'] += 1
+                    continue
+            ctx.ev('odd-setting-value')
+            ctx.sig('odd-setting:%s:%d' % (type(st).__name__, layout))
+            roundtrip_probe(ctx, mon, v)
+            try:
+                v.simplify()
+                v.simplify()
+                L.AnsiStr(v).simplify()
+            except Exception:
+                ctx.aborted['simplify-raised'] += 1
+
+
 def drive(ctx, mon, tier, only_case=None):
     L = ctx.L
     sz = tier_sizes(tier)
@@ -212,6 +254,10 @@ def drive(ctx, mon, tier, only_case=None):
                 v.simplify()
             trie_case(ctx, mon, tier, 2, 3, visit=visit, cls=L.AnsiStr if ctx.shard % 4 == 3 else None)
             return
+        if case == 3 or rng.random() < 0.06:
+            odd_settings_case(ctx, mon, rng, exhaustive=(case == 3))
+            if case == 3:
+                return
         profile = rng.choice(['wf', 'mixed', 'hostile'])
         history(L, rng, ex, rng.randint(1, sz['nops']), sz['maxlen'], profile, WEIGHTS)
         vals = ansi_values(L, ex)
